@@ -179,7 +179,7 @@ Proof.
             | Ok _ => set_cuser reg_user ;;;
                       (handled <- fire E EvAfterRegister false ;;
                        if handled then ret tt
-                       else put_session k_uid reg_pid ;;; log [reg_pid] ;;; redirect E (ro_ok p_register_ok))
+                       else put_session k_uid reg_pid ;;; log [reg_pid] ;;; redirect E (ro_ok (p_register_ok_of (e_cfg E))))
             | Err ErrUserFound =>
                 log [reg_pid] ;;; respond E (bs "register") [(bs "errors", DOther); (bs "preserve", DOther)]
             | Err e => fail e
@@ -204,7 +204,7 @@ Proof.
     assert (G : keeps_inv reg_pid reg_like (s_users (h_st h))
                   (handled <- fire E EvAfterRegister false ;;
                    if handled then ret tt
-                   else put_session k_uid reg_pid ;;; log [reg_pid] ;;; redirect E (ro_ok p_register_ok))).
+                   else put_session k_uid reg_pid ;;; log [reg_pid] ;;; redirect E (ro_ok (p_register_ok_of (e_cfg E))))).
     { apply keeps_bind; [apply keeps_fire_all; [apply reg_like_lock|apply reg_like_confirm]|].
       intros [|]; apply keeps_of_pres; pres_go. }
     destruct (G _ _ _ I2 K) as (_ & Hs & Fr). split; [exact Hs|exact Fr].
